@@ -68,6 +68,9 @@ let parse_op (s : string) : op =
   | ["rmt"; t; u] -> ORemoveTable (nat t, nat u)
   | ["ixt"; t; u] -> OIntersect (nat t, nat u)
   | ["des"; t] -> ODestroy (nat t)
+  | ["mvc"; t; u] -> OMoveCtor (nat t, nat u)
+  | ["mva"; t; u] -> OSwap (nat t, nat u)      (* move assignment is SwapContents *)
+  | ["pre"; t; n] -> OPrealloc (nat t, n_of_int (ios n))
   | ["in"; i; t; bw] -> OIterNew (nat i, nat t, b bw)
   | ["ia"; i; t; k; bw] -> OIterAt (nat i, nat t, zz k, b bw)
   | ["adv"; i] -> OIterAdv (nat i)
